@@ -104,7 +104,8 @@ def run(tier):
             ck.cov["n6_group_level_note"] = f"run did not complete (rc={res.rc}); distinct so far {res.distinct}"
     core.dbg('models done', len(jobs))
     # ---- spec -> code: drive the classifier --------------------------------------------------------
-    results = par.pmap(workers.classify, [(n, codes) for (n, codes, _, _) in jobs])
+    # every third input is presented through ONE long-lived Stabilizer object per worker whose R, S, phases are overwritten (a stale per-object cache shows)
+    results = par.pmap(workers.classify, [(n, codes, i % 3 == 0) for i, (n, codes, _, _) in enumerate(jobs)])
     core.dbg('impl done')
     traces = []
     id_of_rep, rep_of_id = {}, {}
